@@ -108,9 +108,15 @@ theorem checkHeader_ok_iff {h : Header} {u} : checkHeader (some h) = .ok u ↔
 theorem checkTDQuoteBody_ok_iff {t : TdQuoteBody} {u} : checkTDQuoteBody (some t) = .ok u ↔
     t.teeTcbSvn.length = 16 ∧ t.mrSeam.length = 48 ∧ t.mrSignerSeam.length = 48 ∧ t.seamAttributes.length = 8 ∧
     t.tdAttributes.length = 8 ∧ t.xfam.length = 8 ∧ t.mrTd.length = 48 ∧ t.mrConfigId.length = 48 ∧
-    t.mrOwner.length = 48 ∧ t.mrOwnerConfig.length = 48 ∧ t.rtmrs.length = 4 ∧ ∀ r ∈ t.rtmrs, r.length = 48 := by
+    t.mrOwner.length = 48 ∧ t.mrOwnerConfig.length = 48 ∧ t.rtmrs.length = 4 ∧ (∀ r ∈ t.rtmrs, r.length = 48) ∧
+    t.reportData.length = 64 := by
   unfold checkTDQuoteBody checkRtmrs
   simp only [gen_const, bind_guard_ok_iff, bind_lenIs_ok_iff, guard_eq_ok_iff, beq_iff_eq, List.all_eq_true]
+  constructor
+  · rintro ⟨a1, a2, a3, a4, a5, a6, a7, a8, a9, a10, a11, a12, a13⟩
+    exact ⟨a1, a2, a3, a4, a5, a6, a7, a8, a9, a10, a12, a13, a11⟩
+  · rintro ⟨a1, a2, a3, a4, a5, a6, a7, a8, a9, a10, a12, a13, a11⟩
+    exact ⟨a1, a2, a3, a4, a5, a6, a7, a8, a9, a10, a11, a12, a13⟩
 
 theorem checkQeReport_ok_iff {r : EnclaveReport} {u} : checkQeReport (some r) = .ok u ↔
     r.cpuSvn.length = 16 ∧ r.reserved1.length = 28 ∧ r.attributes.length = 16 ∧ r.mrEnclave.length = 32 ∧
@@ -189,7 +195,7 @@ theorem tdQuoteBodyToProto_ok_iff {b : Bytes} (t : TdQuoteBody) : tdQuoteBodyToP
     pure_ok_iff, length_sub, List.length_cons, List.length_nil, List.mem_cons, List.not_mem_nil, or_false, forall_eq_or_imp,
     forall_eq]
   constructor
-  · rintro ⟨_, _, _, _, _, _, _, _, _, _, _, _, _, _, _, _, rfl⟩
+  · rintro ⟨_, _, _, _, _, _, _, _, _, _, _, _, _, _, _, _, _, rfl⟩
     exact ⟨by omega, rfl⟩
   · rintro ⟨h0, rfl⟩
     simp only [true_and, and_true]
